@@ -47,7 +47,67 @@ ASSUMPTIONS = [
 ]
 
 
+def run_stale_backup(case, ctx):
+    """A '<document>~' backup left behind by a killed earlier sync must never be restored into the
+    destination: whatever the sync does (signac refuses with RuntimeError), after any exception the
+    destination document is exactly its pre-sync content."""
+    import json as _json
+    import os
+
+    import signac
+
+    mms = []
+    base = ctx.tmpdir("c14s")
+    try:
+        a = signac.init_project(os.path.join(base, "src"))
+        b = signac.init_project(os.path.join(base, "dst"))
+        level = case.get("level", "job")
+        src_doc, dst_doc, stale = case.get("src_doc") or {}, case.get("dst_doc") or {}, case.get("stale") or {}
+        ja = a.open_job({"a": 0}).init()
+        jb = b.open_job({"a": 0}).init()
+        if level == "job":
+            fa, fb = ja.fn(ja.FN_DOCUMENT), jb.fn(jb.FN_DOCUMENT)
+        else:
+            fa, fb = a.fn(a.FN_DOCUMENT), b.fn(b.FN_DOCUMENT)
+        with open(fa, "w") as f:
+            f.write(_json.dumps(src_doc))
+        with open(fb, "w") as f:
+            f.write(_json.dumps(dst_doc))
+        with open(fb + "~", "w") as f:
+            f.write(_json.dumps(stale))
+        a, b = signac.Project(a.path), signac.Project(b.path)
+        ds = {"update": signac.sync.DocSync.update, "bykey_none": None}.get(case.get("doc_sync", "bykey_none"))
+        exc = None
+        try:
+            if level == "job":
+                b.open_job(id=jb.id).sync(a.open_job(id=ja.id), doc_sync=ds)
+            else:
+                b.sync(a, doc_sync=ds, check_schema=False)
+        except Exception as e:  # noqa
+            exc = e
+        with open(fb) as f:
+            after = _json.loads(f.read())
+        fresh = signac.Project(b.path)
+        via = fresh.open_job(id=jb.id).document() if level == "job" else fresh.document()
+        if exc is not None and (after != dst_doc or via != dst_doc):
+            mms.append(Mismatch(
+                "doc_rollback_bytes",
+                f"{level} document sync raised {type(exc).__name__} with a leftover backup file present; destination document is "
+                f"{after!r} (handle: {via!r}), pre-sync content {dst_doc!r}, leftover backup held {stale!r}"))
+        if exc is None:
+            # merged without complaint: then it must be the documented merge of src into dst, not the stale backup
+            want = dict(dst_doc)
+            want.update(src_doc) if ds is not None else None
+            if ds is not None and after != want:
+                mms.append(Mismatch("doc_update_result", f"sync with a leftover backup returned; document {after!r}, expected {want!r}"))
+    finally:
+        shutil.rmtree(base, ignore_errors=True)
+    return {"mismatches": mms, "classes": ["stale_backup_leftover"], "nontrivial": True}
+
+
 def run_case(case, ctx):
+    if case.get("kind") == "stale_backup":
+        return run_stale_backup(case, ctx)
     plan = sp.analyse(case)
     base, src_root, dst_root = sp.build_pair(ctx, plan, "c14")
     try:
@@ -332,3 +392,10 @@ def run(ctx):
         for c in CONSTRUCTED:
             ctx.apply(c)
     drive(ctx, sp.pair_cases("c14"), 1200 if ctx.tier == "quick" else 12000, ctx.apply)
+    from hypothesis import strategies as st
+
+    docs = st.dictionaries(st.sampled_from(["x", "y", "n"]), st.sampled_from([0, 1, "s", [1], {"k": 1}, {"k": 2}]), min_size=1, max_size=3)
+    drive(ctx, st.fixed_dictionaries({
+        "kind": st.just("stale_backup"), "level": st.sampled_from(["job", "project"]), "src_doc": docs, "dst_doc": docs, "stale": docs,
+        "doc_sync": st.sampled_from(["bykey_none", "bykey_none", "update"]),
+    }), 40 if ctx.tier == "quick" else 400, ctx.apply)
